@@ -3,16 +3,19 @@ import Hs.Model.Tz
 namespace Hs.Drv.C06
 open Hs Hs.Vx Hs.Tz
 
-/-- `DB ::= k (H(tzid) offset)*k` — the zone offset function at the instant of the request -/
+/-- `DB ::= k (H(tzid) instant offset)*k` — the zone offset function at the instants the request can
+reach (the instant of the text and, where the zone's offset there has seconds, that instant minus
+them); anything else is answered with an offset no zone has -/
 def pDb : P TzDb := fun ts => do
   let (k, ts) ← pNat ts
   let (es, ts) ← pRep (fun ts => do
     let (z, ts) ← pH ts
+    let (t, ts) ← pInt ts
     let (o, ts) ← pInt ts
-    pure ((z, o), ts)) k ts
-  pure ({ offsetAt := fun z _ =>
-    match es.find? (fun e => e.1 = z) with
-    | some e => e.2
+    pure ((z, t, o), ts)) k ts
+  pure ({ offsetAt := fun z t =>
+    match es.find? (fun e => e.1 = z ∧ e.2.1 = t) with
+    | some e => e.2.2
     | none => 999999999 }, ts)
 
 def dtReply (db : TzDb) : Res DT → String
@@ -31,6 +34,10 @@ def handle (ts : List String) : String :=
     match pInt ts with
     | some (off, _) => "ok " ++ H (offsetText off)
     | none => "bad-request"
+  | "rfcoff" :: ts =>
+    match pInt ts with
+    | some (off, _) => "ok " ++ H (rfcOffsetText off) ++ s!" {roundMin off}"
+    | none => "bad-request"
   | "rfc" :: ts =>
     (do
       let (loc, ts) ← pInt ts
@@ -45,6 +52,14 @@ def handle (ts : List String) : String :=
       let (name, ts) ← pH ts
       let (db, _) ← pDb ts
       pure (dtReply db (makeDateTimeWithTz secs ns name))).getD "bad-request"
+  | "fromtext" :: ts =>
+    (do
+      let (secs, ts) ← pInt ts
+      let (ns, ts) ← pNat ts
+      let (written, ts) ← pInt ts
+      let (name, ts) ← pH ts
+      let (db, _) ← pDb ts
+      pure (dtReply db (makeDateTimeFromText db secs ns written name))).getD "bad-request"
   | "zenc" :: ts =>
     (do
       let (tzid, ts) ← pH ts
@@ -65,7 +80,7 @@ def handle (ts : List String) : String :=
       let (offTxt, ts) ← pH ts
       let (name, ts) ← pHO ts
       let (db, _) ← pDb ts
-      pure (dtReply db (zincDec ⟨loc, ns, offTxt, name⟩))).getD "bad-request"
+      pure (dtReply db (zincDec db ⟨loc, ns, offTxt, name⟩))).getD "bad-request"
   | "jdec" :: ts =>
     (do
       let (loc, ts) ← pInt ts
@@ -73,7 +88,7 @@ def handle (ts : List String) : String :=
       let (off, ts) ← pInt ts
       let (name, ts) ← pHO ts
       let (db, _) ← pDb ts
-      pure (dtReply db (jsonDec ⟨loc, ns, off, name⟩))).getD "bad-request"
+      pure (dtReply db (jsonDec db ⟨loc, ns, off, name⟩))).getD "bad-request"
   | "capi" :: ts =>
     (do
       let (secs, ts) ← pInt ts
